@@ -180,6 +180,26 @@ func c14Serve(c *Ctx, fn *ssa.Function, decPkg, short string) {
 					ok = true
 				}
 			}
+			if !ok && readErr != nil {
+				// the test may be on a φ that carries the read error out of a merged helper: the exit is unreachable (over
+				// feasible paths) once the err != nil edge of the read is removed
+				for rb2 := range loop {
+					if iff := ifOf(rb2); iff != nil {
+						var e Edge
+						switch {
+						case isNilCmp(iff.Cond, readErr, token.NEQ):
+							e = Edge{rb2, rb2.Succs[0]}
+						case isNilCmp(iff.Cond, readErr, token.EQL):
+							e = Edge{rb2, rb2.Succs[1]}
+						default:
+							continue
+						}
+						if !reachFeasible(read.Block(), map[Edge]bool{e: true}, nil)[s] {
+							ok = true
+						}
+					}
+				}
+			}
 			if ok {
 				r.OK("C14-K1", key("loop exit on ReadFrom error"), c.P.ipos(b.Instrs[len(b.Instrs)-1]), "exit edge is err!=nil of ReadFrom", "")
 			} else {
@@ -210,7 +230,7 @@ func c14Serve(c *Ctx, fn *ssa.Function, decPkg, short string) {
 	// the exit must return the read error
 	for _, ret := range returnsOf(fn) {
 		if len(ret.Results) == 1 {
-			s := sx.Of(ret.Results[0])
+			s := sx.Of(feasibleAt(retResult(ret, 0), ret.Block()))
 			if readErr != nil && s.String() == sx.Of(readErr).String() {
 				r.OK("C14-K1", key("returns the read error"), c.P.ipos(ret), "symx", "")
 			} else {
@@ -245,7 +265,7 @@ func c14Serve(c *Ctx, fn *ssa.Function, decPkg, short string) {
 		}
 	}
 	n := extractOf(read, 0)
-	decArg := sx.Of(dec.Call.Args[0]).String()
+	decArg := sx.Of(feasibleAt(dec.Call.Args[0], dec.Block())).String()
 	wantArg := ""
 	if n != nil {
 		wantArg = "slice(" + bufSx.String() + ",const(_)," + sx.Of(n).String() + ",const(_))"
@@ -319,7 +339,7 @@ func c14Serve(c *Ctx, fn *ssa.Function, decPkg, short string) {
 	// the decode call (a length or content pre-filter in front of the decoder drops datagrams the decoder would accept; which
 	// datagrams "decode" is the decoder's verdict alone)
 	if dec.Block() != rb {
-		reach := reachFromSuccs(rb, nil, map[*ssa.BasicBlock]bool{dec.Block(): true})
+		reach := reachFeasibleSuccs(rb, nil, map[*ssa.BasicBlock]bool{dec.Block(): true})
 		r.Check(!reach[rb], "C14-K3", key("every datagram read reaches the decoder"), c.P.ipos(dec), "no path from the read to the next read avoids the decode call",
 			"a datagram can be read and then skipped before it is decoded (a pre-filter on its length or content): datagrams that decode are not dispatched")
 	} else {
@@ -327,7 +347,7 @@ func c14Serve(c *Ctx, fn *ssa.Function, decPkg, short string) {
 	}
 	// K2: from the error edge, no go before the next read
 	{
-		reach := reachFrom(errEdge.To, nil, map[*ssa.BasicBlock]bool{rb: true})
+		reach := reachFeasible(errEdge.To, nil, map[*ssa.BasicBlock]bool{rb: true})
 		bad := false
 		for b := range reach {
 			if goBlocks[b] {
@@ -352,7 +372,7 @@ func c14Serve(c *Ctx, fn *ssa.Function, decPkg, short string) {
 			}
 			if ex, ok := iff.Cond.(*ssa.Extract); ok && ex.Index == 1 {
 				if ta, ok := ex.Tuple.(*ssa.TypeAssert); ok && ta.CommaOk && namedIs(ta.AssertedType, "net", "UDPAddr") {
-					if pe := extractOf(read, 1); pe != nil && ta.X == ssa.Value(pe) {
+					if pe := extractOf(read, 1); pe != nil && (ta.X == ssa.Value(pe) || feasibleAt(ta.X, ta.Block()) == ssa.Value(pe)) {
 						removed[Edge{b, b.Succs[1]}] = true
 						r.Ledger("C14-K3", key("exception: peer not *net.UDPAddr is skipped"), c.P.ipos(iff), "frozen exception (DESIGN C14-K3)", "precondition on the connection type, outside the property's quantifier")
 					}
@@ -365,7 +385,7 @@ func c14Serve(c *Ctx, fn *ssa.Function, decPkg, short string) {
 		for b := range goBlocks {
 			blocked[b] = true
 		}
-		reach := reachFrom(okEdge.To, removed, blocked)
+		reach := reachFeasible(okEdge.To, removed, blocked)
 		skip := reach[rb] && !goBlocks[okEdge.To]
 		// also leaving the function without go is an exit (K1), not judged here
 		r.Check(!skip, "C14-K3", key("decode success always reaches a handler spawn"), c.P.ipos(decIf), "every path from the success edge to the next read passes a go",
@@ -447,7 +467,7 @@ func c14Serve(c *Ctx, fn *ssa.Function, decPkg, short string) {
 		}
 		a0 := sx.Of(gCallArgs[0]).String()
 		r.Check(a0 == wantConn, "C14-K3", key("handler arg0 is s.conn"), c.P.ipos(g), "symx", "arg0 is "+a0)
-		a2 := sx.Of(gCallArgs[2]).String()
+		a2 := sx.Of(feasibleAt(gCallArgs[2], g.Block())).String()
 		want2 := ""
 		if msg != nil {
 			want2 = sx.Of(msg).String()
@@ -455,7 +475,7 @@ func c14Serve(c *Ctx, fn *ssa.Function, decPkg, short string) {
 		r.Check(a2 == want2, "C14-K3", key("handler arg2 is the message decoded in this iteration"), c.P.ipos(g), "symx", "arg2 is "+a2+", want "+want2)
 		peer := extractOf(read, 1)
 		if short == "server6" {
-			a1 := sx.Of(gCallArgs[1]).String()
+			a1 := sx.Of(feasibleAt(gCallArgs[1], g.Block())).String()
 			want1 := ""
 			if peer != nil {
 				want1 = sx.Of(peer).String()
@@ -527,7 +547,7 @@ func c14PeerRewrite(c *Ctx, fn *ssa.Function, g *ssa.Go, arg ssa.Value, peer *ss
 			return false
 		}
 		ta, ok := x.Tuple.(*ssa.TypeAssert)
-		return ok && x.Index == 0 && peer != nil && ta.X == ssa.Value(peer) && namedIs(ta.AssertedType, "net", "UDPAddr")
+		return ok && x.Index == 0 && peer != nil && (ta.X == ssa.Value(peer) || feasibleAt(ta.X, ta.Block()) == ssa.Value(peer)) && namedIs(ta.AssertedType, "net", "UDPAddr")
 	}
 	if cl, ok := arg.(*ssa.Call); ok {
 		h := cl.Call.StaticCallee()
